@@ -1,30 +1,53 @@
 //! C10 — any two compatibly configured endpoints connect and exchange data and media.
 //!
-//! Engine E5 (finite configuration lattice on real loopback). Every lattice point is one run of
-//! two real `rustrtc::PeerConnection`s in this process on 127.0.0.1, each point in its own tokio
-//! runtime, OS-assigned ports, `POOL` points at a time.
+//! Engine E5 (finite configuration x traffic lattice on real loopback). Every lattice point is one
+//! run of two real `rustrtc::PeerConnection`s in this process on the loopback address of the point,
+//! each point in its own multi-thread tokio runtime (2 workers; 4 for traffic=burst), OS-assigned
+//! ports, `POOL` points at a time. The schedule of the real threads is NOT controlled: what is
+//! enumerated is the lattice.
 //!
-//! Lattice (thorough = the full product; quick = the 2-level sub-lattice):
-//!   mode {WebRtc, Srtp, Rtp} x media {dc, audio, video, audio+video, dc+audio+video}
-//!   x bundle policy {Balanced, MaxCompat, MaxBundle} x rtcp-mux {Require, Negotiate}
-//!   x ICE {full, ice-lite on the answerer, ICE-TCP enabled, ICE-TCP only (no UDP host candidates),
-//!     single-port UDP mux on the answerer}
-//!     (WebRtc mode) | latching {off, on/probation 0, on/probation 3} x direct-mode ice-lite
-//!     {off, on the answerer} (Rtp/Srtp modes)
+//! Dimensions (value sets: the consts below; constraints between them: `Point::valid`, each listed
+//! with its source by `exclusions()`):
+//!   mode {WebRtc, Srtp, Rtp} x media {dc, audio, video, audio+video, dc+audio+video,
+//!     audio+video with the answerer's tracks added in reverse order}
+//!   x bundle policy {Balanced, MaxCompat, MaxBundle}
+//!   x rtcp-mux policy {Require, Negotiate on both ends; Require/Negotiate and Negotiate/Require as offerer/answerer}
+//!   x ICE: WebRtc {full, ice-lite on the answerer, ice-lite on the offerer, ICE-TCP enabled,
+//!       ICE-TCP only with the answerer listening, ... with the offerer listening, ... with the
+//!       answerer on the shared TCP listener, single-port UDP mux on the answerer}
+//!     | direct modes: latching {off, probation 0, probation 3} x ice-lite {off, answerer, offerer}
 //!   x sdp compatibility {Standard, LegacySip} x offerer {A, B}
-//! minus the exclusions listed by `exclusions()` (each with its source).
-//! Thorough additionally runs a small TURN-relay region (in-process `turn` 0.17 server).
+//!   x candidate delivery (WebRtc) {inside the SDP, stripped from the SDP and trickled through add_ice_candidate}
+//!   x address family {127.0.0.1, ::1}
+//!   x data channels (where the media mix has one) {one in-band, two in-band, negotiated id 0 on both
+//!     ends, created by the offerer after media is connected (second offer/answer adds the section)}
+//!   x traffic {one item per flow, one flow after another; every flow at once in numbered bursts}
 //!
-//! Oracle per point: offer/answer (SDP passed as text) succeeds; both ends report Connected
-//! within the harness grace; DTLS `a=setup` roles of offer/answer are complementary (WebRtc),
-//! `a=crypto` present on both (Srtp); one data-channel message each way arrives byte-equal (where
-//! a channel exists); for every media section and direction an RTP packet pushed through the
-//! sender's sample track is delivered by the peer's receiver track with byte-equal payload.
+//! thorough = the full product (the listening-offerer ICE-TCP variant in a region of its own, see
+//!   `lattice` and caps_hit) + a small TURN-relay region (in-process `turn` 0.17 server).
+//! quick    = the complete first-round product (every later dimension at its default)
+//!          + a deterministic strength-2 covering array over all values of all dimensions (`pairwise`)
+//!          + concurrent traffic on every ICE variant x offerer, and on address family / channel variants.
+//!
+//! Oracle per point: offer/answer (SDP passed as text) succeeds and no section is rejected; both ends
+//! report Connected within the harness grace; DTLS `a=setup` roles of offer/answer are complementary
+//! (WebRtc), `a=crypto` present on both (Srtp); every channel opens on both ends with the same label
+//! and id; then
+//!   traffic=one  : one message each way on every channel arrives byte-equal; for every media
+//!                  section and direction an RTP packet pushed through the sender's sample track is
+//!                  delivered by the peer's receiver track with byte-equal payload;
+//!   traffic=burst: see `burst` — data channel: the i-th delivery is byte-equal to the i-th message,
+//!                  all arrive; RTP: every delivered sample is byte-equal to a packet pushed on that
+//!                  flow and a packet pushed after the burst is delivered.
 //! In WebRtc/Srtp modes every RTP packet travels SRTP-protected, so delivery each way is only
 //! possible with identical keys; a DTLS role clash cannot complete the handshake.
 //!
 //! False-alarm control: a failing point is re-run three times alone; it is a violation only if
-//! it fails every time in the same phase; otherwise it is listed as FLAKY (exit 0).
+//! it fails every time in the same phase; otherwise it is listed as FLAKY (exit 0). A failure whose
+//! signature is a listed known finding is reported from its single run.
+//!
+//! Dev aids (never used by ./check): C10_FILTER=dim=value,...  C10_SPACE=full  C10_REPEAT=n
+//! C10_POOL  C10_{SIGNAL,CONNECT,DC,RTP,BURST}_MS  C10_BURST_{DC,RTP}
 use bytes::Bytes;
 use rustrtc::media::MediaStreamTrack;
 use rustrtc::media::frame::{AudioFrame, MediaKind as FrameKind, MediaSample, VideoFrame};
@@ -77,6 +100,7 @@ const CANDS: [&str; 2] = ["sdp", "trickle"];
 const IPS: [&str; 2] = ["v4", "v6"];
 const DCS: [&str; 5] = ["na", "inband", "inband2", "negotiated", "late"];
 const TRAFFICS: [&str; 2] = ["one", "burst"];
+const OFF_LISTENS: &str = "tcp-only/off-listens";
 /// The value sets of the first-round lattice (kept as a region of the quick tier in full).
 const MUXES_R1: [&str; 2] = ["Require", "Negotiate"];
 const ICE_WEBRTC_R1: [&str; 5] = ["full", "lite-ans", "tcp", "tcp-only", "udpmux-ans"];
@@ -342,8 +366,16 @@ fn lattice(tier: Tier) -> Lattice {
     for mode in MODES {
         let all = full_product(mode);
         if tier == Tier::Thorough {
-            *regions.entry("full product of every dimension").or_default() += all.len() as u64;
-            set.extend(all);
+            // Harness bound (recorded in caps_hit): the listening-offerer ICE-TCP variant is not
+            // crossed with the whole product — it currently fails at connect whatever the other
+            // dimensions are and every such point costs a full connect grace. It keeps a region
+            // of its own; fold it back in by deleting this filter once the variant connects.
+            let (prod, own): (Vec<Point>, Vec<Point>) = all.into_iter().partition(|p| p.ice != OFF_LISTENS);
+            let own: Vec<Point> = own.into_iter().filter(|p| ["dc", "audio+video", "dc+audio+video"].contains(&p.media) && p.bundle == "Balanced" && p.mux == "Require" && p.compat == "Standard" && (p.dcs == "inband" || p.dcs == "na")).collect();
+            *regions.entry("full product of every dimension (ICE variants other than tcp-only/off-listens)").or_default() += prod.len() as u64;
+            *regions.entry("tcp-only/off-listens x media {dc, audio+video, dc+audio+video} x offerer x address family x candidate delivery x traffic").or_default() += own.len() as u64;
+            set.extend(prod);
+            set.extend(own);
             continue;
         }
         // quick region 1: the complete first-round product (every later dimension at its default)
@@ -355,18 +387,22 @@ fn lattice(tier: Tier) -> Lattice {
         pairs_covered += covered as u64;
         *regions.entry("pairwise-complete covering array over all dimensions").or_default() += idx.len() as u64;
         set.extend(idx.into_iter().map(|i| all[i].clone()));
-        // quick region 3: concurrent traffic on every ICE variant x offerer x address family with
-        // the richest media mix of the mode (channel variants in WebRtc mode), other dimensions default
+        // quick region 3: concurrent traffic with the richest media mix of the mode on
+        //   every ICE variant x offerer (127.0.0.1, one in-band channel), and on ICE=full|none x
+        //   {::1} and x every channel variant; other dimensions at their defaults. Crossings with
+        //   the remaining dimensions come from the covering array above.
         let mut r3 = 0u64;
         for p in &all {
             let rich = if p.direct() { p.media == "audio+video" && p.latch == "off" } else { p.media == "dc+audio+video" };
-            if p.traffic == "burst" && rich && p.bundle == "Balanced" && p.mux == "Require" && p.compat == "Standard" && (p.cand == "sdp" || p.cand == "na") {
-                if set.insert(p.clone()) {
-                    r3 += 1;
-                }
+            let base = p.traffic == "burst" && rich && p.bundle == "Balanced" && p.mux == "Require" && p.compat == "Standard" && (p.cand == "sdp" || p.cand == "na");
+            let plain_ice = p.ice == "full" || p.ice == "none";
+            let plain_dc = p.dcs == "inband" || p.dcs == "na";
+            let pick = (p.ip == "v4" && plain_dc) || (plain_ice && p.offerer == "A" && (p.ip == "v4" || plain_dc));
+            if base && pick && set.insert(p.clone()) {
+                r3 += 1;
             }
         }
-        *regions.entry("concurrent traffic x every ICE variant x offerer x address family x channel variant (richest media mix)").or_default() += r3;
+        *regions.entry("concurrent traffic: every ICE variant x offerer; ICE full/none x address family, x channel variant (richest media mix)").or_default() += r3;
     }
     if tier == Tier::Thorough {
         // TURN relay region: ice_transport_policy = Relay on one side, in-process TURN server.
@@ -1409,8 +1445,8 @@ fn timeouts(tier: Tier) -> Timeouts {
     let ms = |k: &str, d: u64| Duration::from_millis(std::env::var(k).ok().and_then(|s| s.parse().ok()).unwrap_or(d));
     Timeouts {
         signal: ms("C10_SIGNAL_MS", 10_000),
-        connect: ms("C10_CONNECT_MS", tier.pick(10_000, 15_000)),
-        dc: ms("C10_DC_MS", 5_000),
+        connect: ms("C10_CONNECT_MS", tier.pick(6_000, 15_000)),
+        dc: ms("C10_DC_MS", tier.pick(4_000, 5_000)),
         rtp: ms("C10_RTP_MS", tier.pick(3_000, 4_000)),
         burst: ms("C10_BURST_MS", tier.pick(6_000, 8_000)),
     }
@@ -1447,7 +1483,7 @@ fn main() {
     }
     let mut rep = vh::Report::new("C10", &cli, "exploration");
     let t = timeouts(cli.tier);
-    let pool: usize = std::env::var("C10_POOL").ok().and_then(|s| s.parse().ok()).unwrap_or(8);
+    let pool: usize = std::env::var("C10_POOL").ok().and_then(|s| s.parse().ok()).unwrap_or(cli.tier.pick(12, 8));
     let t_lat = Instant::now();
     // debugging aids only, never used by ./check (a filtered run is not called exhaustive):
     // C10_SPACE=full filters the full product whatever the tier; C10_FILTER=dim=value,...;
@@ -1502,7 +1538,17 @@ fn main() {
     // sequential; with more, at most CONFIRM_POOL (4) single-point re-runs share the 16-core box
     // (each is a handful of mostly idle tasks), which keeps a lattice region broken by a genuine
     // defect from costing minutes. Concurrency can only add failures, and a verdict needs 4/4.
-    let failing: Vec<usize> = outcomes.iter().enumerate().filter(|(_, o)| o.fail_phase.is_some()).map(|(i, _)| i).collect();
+    // A failure whose signature is already a listed known finding is reported from its single
+    // observation: the solo re-runs exist to keep load artefacts from becoming *unlisted* alarms,
+    // a listed finding can only produce a KNOWN-FINDING line and never changes the exit code.
+    let known: Vec<vh::Finding> = vh::load_findings("C10").into_iter().filter(|f| f.status == "known").collect();
+    let listed: Vec<usize> = outcomes
+        .iter()
+        .enumerate()
+        .filter(|(i, o)| o.fail_phase.as_ref().is_some_and(|ph| ph != "machinery" && known.iter().any(|f| vh::glob_match(&f.pattern, &signature(&points[*i], ph, &o.cause)))))
+        .map(|(i, _)| i)
+        .collect();
+    let failing: Vec<usize> = outcomes.iter().enumerate().filter(|(i, o)| o.fail_phase.is_some() && !listed.contains(i)).map(|(i, _)| i).collect();
     let confirm_pool: usize = std::env::var("C10_CONFIRM_POOL").ok().and_then(|s| s.parse().ok()).unwrap_or(if failing.len() <= 4 { 1 } else { 4 });
     let reran: Vec<Vec<Outcome>> = {
         let next = AtomicUsize::new(0);
@@ -1563,6 +1609,10 @@ fn main() {
             let kind = if o.cause.contains("timeout") || o.cause.starts_with("lost=") || o.cause == "not-delivered" || o.cause.starts_with("no-") { "timeout" } else { "reported" };
             flaky.push(json!({"point": points[i].dims(), "phases": phases, "causes": causes, "kind": kind, "first_detail": vh::truncate(&o.detail, 300)}));
         }
+    }
+    for &i in &listed {
+        let o = &outcomes[i];
+        confirmed.push((i, o.fail_phase.clone().unwrap(), o.cause.clone(), o.detail.clone(), vec![o.detail.clone()]));
     }
     let conf_s = t_conf.elapsed().as_secs_f64();
     if !machinery.is_empty() {
@@ -1629,6 +1679,7 @@ fn main() {
     rep.set("offerer_set_remote_answer_us_min_med_max", json!([q(&srd, 0, 1), q(&srd, 1, 2), q(&srd, 1, 1)]));
     rep.set("offerer_ice_connected_after_set_remote_start_us_min_med_max", json!([q(&icec, 0, 1), q(&icec, 1, 2), q(&icec, 1, 1)]));
     rep.set("confirmation_reruns", reruns);
+    rep.set("listed_known_finding_points_reported_from_one_run", listed.len() as u64);
     rep.set("points_held", held);
     rep.set("points_failing_confirmed", confirmed.len() as u64);
     rep.set("points_flaky", flaky.len() as u64);
@@ -1636,7 +1687,9 @@ fn main() {
     rep.set("transfers_verified", transfers);
     rep.set("distinct_nontrivial", shapes.len() as u64);
     rep.set("rule", "cases = every point of the stated configuration x traffic lattice (thorough: the full product of the per-mode dimension value sets minus the listed exclusions; quick: the complete first-round product + a strength-2 covering array over all values of all dimensions + the concurrent-traffic region, see lattice_regions), each run once on two real PeerConnections over the loopback address of the point (+3 solo re-runs of every failing point). A case is non-trivial if signalling completed and at least one transfer was judged (or it failed); two cases are distinct if their (mode, outcome phase, negotiated session shape: BUNDLE/ports/per-section proto, mid, rtcp-mux, a=rtcp, setup, crypto, ice attrs, candidate transports, selected pair, shape of the second exchange) differ. distinct_nontrivial counts those distinct classes.");
-    rep.set("exhaustive", !filtered);
+    // a declared cap (thorough: the listening-offerer variant is not crossed with the product) means
+    // the product of the stated value sets was not enumerated completely
+    rep.set("exhaustive", !filtered && cli.tier == Tier::Quick);
     rep.set("by_mode_total_held", json!(by_mode.iter().map(|(k, v)| (k.to_string(), json!([v.0, v.1]))).collect::<BTreeMap<_, _>>()));
     let quick = cli.tier == Tier::Quick;
     rep.set("dimension_values", json!({
@@ -1658,7 +1711,7 @@ fn main() {
     rep.set("confirmation_pool", confirm_pool as u64);
     rep.set("parallel_pass_s", par_s);
     rep.set("confirmation_pass_s", conf_s);
-    rep.set("caps_hit", Value::Array(vec![]));
+    rep.set("caps_hit", if cli.tier == Tier::Thorough { json!(["ice=tcp-only/off-listens is not crossed with the full product in the thorough tier (own region, see lattice_regions): it fails at connect on every point, each costing the full connect grace"]) } else { json!([]) });
     for k in [0usize, n / 3, 2 * n / 3, n - 1] {
         let o = &outcomes[k];
         rep.sample(json!({"point": points[k].to_json(), "outcome": o.fail_phase.clone().unwrap_or_else(|| "ok".into()), "transfers": o.transfers, "ms": o.ms, "shape": o.shape}));
@@ -1666,13 +1719,18 @@ fn main() {
     if let Some((i, ph, cause, _, _)) = confirmed.first() {
         rep.sample(json!({"point": points[*i].to_json(), "outcome": format!("VIOLATION phase={ph} cause={cause}"), "shape": outcomes[*i].shape}));
     }
-    rep.assume("both ends bind 127.0.0.1 (bind_ip) — the property is stated for a loopback network; every other RtcConfiguration field not named by the lattice keeps its default on both ends");
-    rep.assume("'within the configured timeouts' is judged with a real-time grace (timeouts_ms) far above the ~50 ms a loopback connect takes and below ice_connection_timeout; a failing point is re-run three times outside the bulk pass (strictly one at a time when at most 4 points fail, otherwise at most confirmation_pool single-point runs at a time) and only counts if it fails every time in the same phase");
-    rep.assume("'an RTP packet arrives intact': the sender pushes one distinct sample every 20 ms until the peer's receiver track delivers one (RTP is unreliable; the first packets may legitimately be consumed by latching probation or arrive before the receive path is armed); every delivered sample must be byte-equal to a sample pushed on exactly that stream");
+    rep.assume("both ends bind the loopback address of the point (bind_ip = 127.0.0.1 or ::1) — the property is stated for a loopback network; every other RtcConfiguration field not named by the lattice keeps its default on both ends");
+    rep.assume("'within the configured timeouts' is judged with a real-time grace (timeouts_ms) far above the ~50 ms a loopback connect takes and below ice_connection_timeout; a failing point is re-run three times outside the bulk pass (strictly one at a time when at most 4 points fail, otherwise at most confirmation_pool single-point runs at a time) and only counts if it fails every time in the same phase. Exception: a failure whose signature matches a listed known finding is reported from its single run (it cannot change the exit code)");
+    rep.assume("traffic=one, 'an RTP packet arrives intact': the sender pushes one distinct sample every 20 ms until the peer's receiver track delivers one (RTP is unreliable; the first packets may legitimately be consumed by latching probation or arrive before the receive path is armed); every delivered sample must be byte-equal to a sample pushed on exactly that stream");
+    rep.assume("traffic=burst: after every channel is open, every flow of the point (each data channel and each audio/video section, both directions) sends from its own task at the same moment, on a 4-worker multi-thread runtime. Data channel (ordered, reliable default): concurrent_burst_sizes messages back to back; the i-th delivery must be byte-equal to the i-th message sent, all must arrive before timeouts_ms.concurrent_flow. RTP: one numbered packet per millisecond for the burst, then one per 10 ms (tail); every delivered sample must be byte-equal to a packet pushed on exactly that flow, and at least one packet pushed AFTER the burst must be delivered before the deadline (nothing is demanded of the packets inside the burst beyond being intact if they arrive: RTP may lose and reorder). Both rules are instances of 'a data-channel message and an RTP packet sent in each direction arrive intact' applied to each numbered item / to an item sent after the concurrent phase");
+    rep.assume("the schedule of the real threads (tokio workers, kernel) is NOT enumerated or controlled: what is enumerated is the configuration x traffic lattice. A defect that needs a particular interleaving is found only if the interleaving occurs in at least the first run and all three solo re-runs; measured for the seeded ICE-TCP framing change (seeded/C10b): see DESIGN 9.5");
+    rep.assume("cand=trickle: both descriptions are created without waiting for gathering and travel without a=candidate / a=end-of-candidates lines; after the offerer applied the answer, all candidates of the answerer and then of the offerer are delivered through add_ice_candidate (each carried as its to_sdp() text and parsed back). Other trickle orders (candidates before the answer, interleaved) are not enumerated");
+    rep.assume("dcs=late: the second offer/answer exchange uses the same candidate-delivery mode; the oracle additionally demands an application section in the second offer and answer and both ends still Connected");
     rep.assume("PeerConnection exposes neither the DTLS handle nor the SRTP keys: complementary roles are checked on the a=setup attributes of offer/answer plus 'both handshakes completed'; identical SRTP keys are observed as SRTP-protected RTP being unprotected and delivered in each direction (bit-level exporter equality is C11's)");
-    rep.assume("endpoints A and B are configured identically apart from construction order and the role-bound options (ice-lite / udp-mux / relay policy follow the answerer), so offerer=B is the mirror run of offerer=A");
+    rep.assume("endpoints A and B are configured identically apart from construction order and the role-bound options (ice-lite / udp-mux / tcp listener / relay policy / rtcp-mux policy of a mixed pair follow the offerer/answerer role), so offerer=B is the mirror run of offerer=A");
     rep.assume("bundle_policy and (in WebRtc mode) enable_ice_lite are enumerated because they are part of the configuration surface, but the pinned source never reads them outside src/config.rs / the Rtp-mode SDP builder");
-    rep.assume("residue: STUN-server (srflx), UPnP and external_ip/external_port configurations need infrastructure that does not exist offline; ice=tcp gathers UDP and TCP candidates on both ends (the UDP pair wins on loopback), ice=tcp-only removes the UDP host candidates so the selected pair is TCP (answerer passive in tcp_port_range, offerer active), as in src/transports/ice/tests.rs test_ice_tcp_end_to_end_connectivity");
+    rep.assume("residue: STUN-server (srflx), UPnP and external_ip/external_port configurations need infrastructure that does not exist offline; the TURN relay region is not crossed with the later dimensions. ice=tcp gathers UDP and TCP candidates on both ends: the selected pair reported at connect time is UDP in every such point, yet the seeded TCP-framing change also stalls these points, so part of their traffic does travel over a TCP stream (not analysed further; cf. the C06 note on nudge_passive_tcp_nomination). ice=tcp-only / tcpmux-ans / tcp-only/off-listens remove the UDP host candidates so the selected pair is TCP, as in src/transports/ice/tests.rs test_ice_tcp_end_to_end_connectivity");
+    rep.assume("offerer_set_remote_answer_us / offerer_ice_connected_after_set_remote_start_us are measurements, not verdicts: they show how close ICE completion is to the end of set_remote_description(answer) on this machine");
 
     // vacuity
     if !filtered {
@@ -1696,7 +1754,7 @@ fn main() {
         let g = &groups[&format!("{}/{}", ph, p.mode)];
         rep.violation(Violation {
             signature: signature(p, &ph, &cause),
-            detail: format!("{} fails in phase '{}' on 4/4 runs (3 alone): {} [group of {} points, values present: {}]", p.dims(), ph, detail, g.len(), common_factors(g)),
+            detail: format!("{} fails in phase '{}' {}: {} [group of {} points, values present: {}]", p.dims(), ph, if details.len() == 1 { "(listed known finding, one run)" } else { "on 4/4 runs (3 alone)" }, detail, g.len(), common_factors(g)),
             replay: json!({"point": p.to_json(), "phase": ph, "cause": cause, "details": details, "shape": outcomes[i].shape, "offer": outcomes[i].offer, "answer": outcomes[i].answer}),
         });
     }
